@@ -82,6 +82,7 @@ def main() -> int:
         jobs.append(j)
     rs = run.map(jobs, timeout=400)
     pkgs, owner = [], {}
+    unbound: dict = {}
     shadow_pkgs: set = set()
     param_local_modules: set = set()
     capture_pkgs: dict = {}
@@ -92,6 +93,11 @@ def main() -> int:
         # ---- (b) M-TYPE
         broken_imports = False
         for a, x in actions_results(res):
+            if a["a"] == "import_all" and not x.get("action_exc"):
+                for u_ in x.get("unresolved") or []:
+                    if str(u_.get("what") or "").startswith("global name "):
+                        # a name a function body uses that exists for the type checker only (imported under TYPE_CHECKING): decided after mypy has run
+                        unbound.setdefault(Path(res["outdir"]).name, []).append((u_["module"], u_["what"], label, j))
             if a["a"] == "import_all" and not x.get("action_exc") and (x.get("unresolved") or x.get("errors") or x.get("syntax")):
                 broken_imports = True  # C01's concern (known cascade finding); decode fall-through in such a package is its consequence
         if broken_imports:
@@ -223,6 +229,23 @@ def main() -> int:
                 mech2 = "union_member_list_of_any_redundant_cast"
             key_ = f"mypy:{mech2}" if mech2 else f"mypy:{code}:{kind_}"
             vd.violation(key_, f"{label}: {rel}:{ln}: {msg} | {src_line}", {"doc": j["doc"] if j else None, "cfg": j.get("cfg") if j else None, "mypy": line})
+    # (d) the type checker accepts a module whose function bodies use a name that is unbound at run time (the annotation side and the run-time side disagree)
+    files_with_errors = set()
+    for rc, out, err, dt in outs:
+        for line in out.splitlines():
+            m = re.match(r"^([^:]+):(\d+): error: ", line)
+            if m:
+                files_with_errors.add(m.group(1))
+    for pkg, entries in unbound.items():
+        if pkg in shadow_pkgs or pkg not in pkgs:
+            continue
+        for module, what, label_, j_ in entries:
+            rel = module.replace(".", "/") + ".py"
+            ev.count("runtime_unbound_names_compared_with_mypy")
+            if rel not in files_with_errors:
+                vd.violation(f"typechecks_but_name_unbound_at_runtime:{artefact_kind(rel.split('/', 1)[1] if '/' in rel else rel)}", f"{label_}: {rel}: {what} - mypy reports nothing for this module, at run time the name is not bound (imported for the type checker only)",
+                             {"doc": j_["doc"], "cfg": j_.get("cfg"), "module": module, "what": what})
+                break
     ev.count("packages_type_checked", len(pkgs))
     ev.count("mypy_errors", n_err)
     ev.sample({"packages": pkgs[:5], "mypy_errors": n_err, "flags": ["disallow_any_generics", "disallow_untyped_defs", "warn_redundant_casts", "strict_equality"]})
